@@ -99,6 +99,16 @@ class Crate:
         f = self.by_path.get(path)
         if f is None and getattr(self, "raw_fns", None) is not None and path in self.raw_by_path:
             return InlinedFn(self.raw_by_path[path])
+        if f is None and "::{" not in path and "<" not in path:
+            # the item may have been moved to another module: a free function / static / const is identified by
+            # its name when that name is unique in the crate
+            name = path.split("::")[-1]
+            pool = list(self.fns) + [g for g in (getattr(self, "raw_fns", None) or []) if g.path not in self.by_path]
+            cands = [g for g in pool if g.name == name and g.dk in ("Fn", "Static", "Const") and g.parent is None]
+            uniq = {g.path: g for g in cands}
+            if len(uniq) == 1:
+                g = next(iter(uniq.values()))
+                return g if g.path in self.by_path or getattr(self, "raw_fns", None) is None else InlinedFn(g)
         return f
 
     def find_fns(self, pred):
@@ -106,6 +116,16 @@ class Crate:
 
     def method(self, self_ty_sub, name, trait=None):
         """impl method by (substring of) self type, method name and (suffix of) trait path."""
+        out = self._method(self_ty_sub, name, trait)
+        if not out and "::" in self_ty_sub and "<" not in self_ty_sub:
+            # the type may have been moved to another module: fall back to its name when no other type of the
+            # crate shares it
+            last = self_ty_sub.split("::")[-1]
+            if sum(1 for a in self.adts if a.split("::")[-1] == last) == 1:
+                out = self._method(last, name, trait)
+        return out
+
+    def _method(self, self_ty_sub, name, trait=None):
         out = []
         for f in self.fns:
             if f.name != name or f.dk != "AssocFn":
